@@ -28,3 +28,4 @@ extern "C" int k_write_traj_files(unsigned cv_traj_freq, bool *write_labels, uns
   *write_labels = f.cv_traj_write_labels;
   return r;
 }
+
